@@ -71,6 +71,10 @@ structure Spec where
   clearDeletes : Bool
   /-- the `temp_property` wrapper is `if not locked: if is_stale: _clear_temp_attr()` -/
   wrapperChecks : Bool
+  /-- `_clear_temp_attr` also treats `"_" ++ e` as excluded for every `e` in `exclude` -/
+  exclPrefix : Bool
+  /-- `lock_neuron` releases the lock in a `finally:` (also when the wrapped call raises) -/
+  lockFinally : Bool
   deriving Repr
 
 /-- Primitive protocol events (what the harness observes on the real object). -/
@@ -125,10 +129,13 @@ def isStaleS (sp : Spec) (s : St) : St :=
   else if sp.isStaleRecomputes then { s with stale := s.md5 != s.ver }
   else s
 
-/-- entries that survive `_clear_temp_attr(exclude)`: the *name* is literally in `exclude`, or is not
-registered in `TEMP_ATTR` -/
+/-- entries that survive `_clear_temp_attr(exclude)`: the *name* matches `exclude` by the string rule of the
+source (literally, or — if the source says so — with a leading underscore), or is not registered in `TEMP_ATTR` -/
+def exclMatches (sp : Spec) (excl : List String) (a : Attr) : Bool :=
+  excl.contains a || (sp.exclPrefix && excl.any (fun e => "_" ++ e == a))
+
 def retained (sp : Spec) (excl : List String) (c : List (Attr × Nat)) : List (Attr × Nat) :=
-  c.filter (fun p => excl.contains p.1 || !(sp.tempAttr.contains p.1))
+  c.filter (fun p => exclMatches sp excl p.1 || !(sp.tempAttr.contains p.1))
 
 def clearBase (sp : Spec) (excl : List String) (s : St) : St :=
   if sp.clearGuardsLock && decide (0 < s.lock) then s
@@ -226,7 +233,11 @@ literal of any call site names a cache attribute, and the protocol functions hav
 def soundB (sp : Spec) : Bool :=
   sp.clearRestamps && sp.clearDeletes && sp.isStaleRecomputes && sp.wrapperChecks
   && sp.views.all (fun v => sp.tempAttr.contains v.attr)
-  && sp.clearSites.all (fun c => sp.views.all (fun v => !(c.excl.contains v.attr)))
+  && sp.clearSites.all (fun c => sp.views.all (fun v => !(exclMatches sp c.excl v.attr)))
+
+/-- A call of a `@lock_neuron` function whose body performs `body` and then returns or raises. -/
+def lockedCall (sp : Spec) (body : List Ev) (raises : Bool) : List Ev :=
+  [Ev.lock] ++ body ++ (if raises && !sp.lockFinally then [] else [Ev.unlock])
 
 /-- "the stamp says current" -/
 def stampCurrent (s : St) : Bool := s.lock == 0 && !s.stale && s.md5 == s.ver
